@@ -135,7 +135,7 @@ ASSUMPTIONS = [
     "OutcomeNotCondition (no outcome shares its vertex with a condition) IS needed for arbitrary domain distributions - a "
     "distribution that lists a counterfactual variable next to its vertex, PP[pi](X, Y, Y_x), makes P*(Y = y | Y = y') raise "
     "KeyError from check 5 of the output check after both validators accepted the input (Lean witness a3Shared, confirmed on "
-    "the Python by tools/c09_popworld_witness.py; open finding crash:ctfTR-final-check:population-world, NOT reachable by "
+    "the Python by tools/c09_popworld_witness.py; observation recorded in DESIGN.md 9.3 (outside the quantifier of C09), NOT reachable by "
     "this harness's case format) - and is not needed under PopsPlain; the oracle reports every exception after validation",
     "failures on inputs with the syntactic signature of an open finding AND its kind of outcome (wrong value / wrong zero / "
     "exception class at a named check) are attributed to that finding by class key (17 keys; signature computed on the "
@@ -1350,7 +1350,7 @@ MANIFEST = {
              "expression returned by Algorithm 4 denotes Q[district] of the domain's model (sigmaTR_sound, via C17 "
              "cfactor_sound / tian_sound). NOT "
              "proved: the value clause outside ctfSoundClass (FALSE of the current code on the inputs of the open findings value:*), the value clause of Algorithm 3 outside ctfTRSoundClass (false on the findings cond:value:*; not decided for a literal subscript naming an outcome and multi-world queries the code happens to answer correctly), and the absence of non-validation errors in full "
-             "(ctf_no_internal_error: false on the crash classes of the findings; for Algorithm 3 the two further input classes are decided: DstarOneWorld is not needed (ctfTR_no_internal_error_found_partial), OutcomeNotCondition is not needed for distributions over plain variables (ctfTR_no_internal_error_plain_partial) and needed for arbitrary ones (witness a3Shared, open finding crash:ctfTR-final-check:population-world), so OutcomesFound is the only crash class of Algorithm 3 for declared domains). These clauses are decided on every run by the correspondence (validators exact; "
+             "(ctf_no_internal_error: false on the crash classes of the findings; for Algorithm 3 the two further input classes are decided: DstarOneWorld is not needed (ctfTR_no_internal_error_found_partial), OutcomeNotCondition is not needed for distributions over plain variables (ctfTR_no_internal_error_plain_partial) and needed for arbitrary ones (witness a3Shared; such distributions are outside the quantifier of C09, see DESIGN.md 9.3), so OutcomesFound is the only crash class of Algorithm 3 for declared domains). These clauses are decided on every run by the correspondence (validators exact; "
              "Algorithms 2 and 3: verdict, returned event and exact value of the expression) and by the exact functional-SCM "
              "oracle (noise-space enumeration of P*(event), policies as fresh mechanisms): trichotomy, zero-soundness and "
              "value on every answered case."),
